@@ -18,24 +18,31 @@ fn spec_max_compact(n: usize) -> usize {
 /// |capacity| = 1: inline, high word 0, and zero is positive; |capacity| = 2: inline, high word != 0;
 /// |capacity| >= 3: heap, 3 <= len <= |capacity| <= max_compact_capacity(len), top word != 0.
 fn wf_repr(r: &Repr) -> bool {
+    if r.capacity.get().unsigned_abs() <= 2 {
+        wf_inline(r)
+    } else {
+        wf_heap(r)
+    }
+}
+fn wf_inline(r: &Repr) -> bool {
     let c = r.capacity.get();
     let a = c.unsigned_abs();
     unsafe {
-        match a {
-            0 => false,
-            1 => r.data.inline[1] == 0 && !(c < 0 && r.data.inline[0] == 0),
-            2 => r.data.inline[1] != 0,
-            _ => {
-                let (p, len) = r.data.heap;
-                !p.is_null()
-                    && (p as usize) % mem::align_of::<Word>() == 0
-                    && len >= 3
-                    && len <= a
-                    && a <= spec_max_compact(len)
-                    && a <= usize::MAX / 64
-                    && *p.add(len - 1) != 0
-            }
-        }
+        (a == 1 && r.data.inline[1] == 0 && !(c < 0 && r.data.inline[0] == 0)) || (a == 2 && r.data.inline[1] != 0)
+    }
+}
+fn wf_heap(r: &Repr) -> bool {
+    let a = r.capacity.get().unsigned_abs();
+    unsafe {
+        let (p, len) = r.data.heap;
+        a >= 3
+            && !p.is_null()
+            && (p as usize) % mem::align_of::<Word>() == 0
+            && len >= 3
+            && len <= a
+            && a <= spec_max_compact(len)
+            && a <= usize::MAX / 64
+            && *p.add(len - 1) != 0
     }
 }
 
@@ -73,28 +80,39 @@ fn words_match(s: &[Word], m: &Model) -> bool {
 
 /// Read the value of a well-formed Repr straight from its fields.
 fn model_of(r: &Repr) -> Model {
+    if r.capacity.get().unsigned_abs() <= 2 {
+        model_inline(r)
+    } else {
+        model_heap(r)
+    }
+}
+fn model_inline(r: &Repr) -> Model {
     let c = r.capacity.get();
-    let a = c.unsigned_abs();
     let mut m = Model { neg: c < 0, w: [0; MAXW], len: 0 };
     unsafe {
-        if a == 1 {
-            m.w[0] = r.data.inline[0];
+        m.w[0] = r.data.inline[0];
+        if c.unsigned_abs() == 1 {
             m.len = if m.w[0] != 0 { 1 } else { 0 };
-        } else if a == 2 {
-            m.w[0] = r.data.inline[0];
+        } else {
             m.w[1] = r.data.inline[1];
             m.len = 2;
-        } else {
-            let (p, len) = r.data.heap;
-            assert!(len <= MAXW);
-            m.len = len;
-            let mut i = 0;
-            while i < MAXW {
-                if i < len {
-                    m.w[i] = *p.add(i);
-                }
-                i += 1;
+        }
+    }
+    m
+}
+fn model_heap(r: &Repr) -> Model {
+    let c = r.capacity.get();
+    let mut m = Model { neg: c < 0, w: [0; MAXW], len: 0 };
+    unsafe {
+        let (p, len) = r.data.heap;
+        assert!(len <= MAXW);
+        m.len = len;
+        let mut i = 0;
+        while i < MAXW {
+            if i < len {
+                m.w[i] = *p.add(i);
             }
+            i += 1;
         }
     }
     m
@@ -159,9 +177,9 @@ fn mk_heap(cap: usize, neg: bool) -> (Repr, Model) {
 }
 
 /// kind 1, 2: inline with that capacity; kind c >= 3: heap with capacity c.
-/// The sign is a *concrete* parameter as well (the harness macros branch on a symbolic bool and run the body
-/// once per sign): |capacity| of a value with symbolic sign is not a constant for CBMC, which then encodes the
-/// inline and the heap branch of every accessor.
+/// For the inline kinds the harness macros pass a *concrete* sign (they branch on a symbolic bool and run the
+/// body once per sign): |capacity| of an inline value with symbolic sign is not a constant for CBMC, which then
+/// also encodes the heap branch of every accessor over a pointer made of the inline words (50x slower).
 fn mk(kind: usize, neg: bool) -> (Repr, Model) {
     if kind <= 2 {
         mk_inline(kind, neg)
@@ -170,13 +188,41 @@ fn mk(kind: usize, neg: bool) -> (Repr, Model) {
     }
 }
 
-/// Post-state: invariant + value, then exercise the whole allocation and free it (dealloc-size check).
-fn finish(r: Repr, want: &Model) {
-    assert!(wf_repr(&r));
-    let got = model_of(&r);
-    assert!(model_eq(&got, want));
+/// Expected storage class of a result, when the harness knows it statically (same reason as above: the
+/// checks then never touch the other union variant).  ANY = decided from the capacity field.
+const ANY: usize = 0;
+const INLINE: usize = 1;
+const HEAP: usize = 2;
+fn class_of(kind: usize) -> usize {
+    if kind <= 2 {
+        INLINE
+    } else {
+        HEAP
+    }
+}
+
+/// wf_repr + value of `r`.
+fn check(r: &Repr, want: &Model, class: usize) {
     let a = r.capacity.get().unsigned_abs();
-    if a > 2 {
+    if class == INLINE {
+        assert!(a <= 2 && wf_inline(r));
+        assert!(model_eq(&model_inline(r), want));
+    } else if class == HEAP {
+        assert!(a >= 3 && wf_heap(r));
+        assert!(model_eq(&model_heap(r), want));
+    } else {
+        assert!(wf_repr(r));
+        assert!(model_eq(&model_of(r), want));
+    }
+    // inline iff at most two words
+    assert!((a <= 2) == (want.len <= 2));
+}
+
+/// Post-state: invariant + value, then exercise the whole allocation and free it (dealloc-size check).
+fn finish_k(r: Repr, want: &Model, class: usize) {
+    check(&r, want, class);
+    let a = r.capacity.get().unsigned_abs();
+    if class != INLINE && a > 2 {
         assert!(a <= MAXW);
         unsafe {
             let (p, len) = r.data.heap;
@@ -191,6 +237,9 @@ fn finish(r: Repr, want: &Model) {
     }
     drop(r);
 }
+fn finish(r: Repr, want: &Model) {
+    finish_k(r, want, ANY)
+}
 
 fn finish_buffer(b: Buffer, want: &Model) {
     assert!(b.len() <= b.capacity() && b.capacity() >= 1);
@@ -204,7 +253,10 @@ macro_rules! per_kind {
         #[cfg_attr(kani, kani::unwind(12))]
         #[cfg_attr(not(kani), test)]
         fn $name() {
-            if any::<bool>() {
+            let neg: bool = any();
+            if $k > 2 {
+                $body($k, neg);
+            } else if neg {
                 $body($k, true);
             } else {
                 $body($k, false);
@@ -230,11 +282,29 @@ macro_rules! per_kind2 {
         #[cfg_attr(kani, kani::unwind(12))]
         #[cfg_attr(not(kani), test)]
         fn $name() {
-            match (any::<bool>(), any::<bool>()) {
-                (false, false) => $body($k, false, $j, false),
-                (false, true) => $body($k, false, $j, true),
-                (true, false) => $body($k, true, $j, false),
-                (true, true) => $body($k, true, $j, true),
+            let dn: bool = any();
+            let sn: bool = any();
+            if $k <= 2 && $j <= 2 {
+                match (dn, sn) {
+                    (false, false) => $body($k, false, $j, false),
+                    (false, true) => $body($k, false, $j, true),
+                    (true, false) => $body($k, true, $j, false),
+                    (true, true) => $body($k, true, $j, true),
+                }
+            } else if $k <= 2 {
+                if dn {
+                    $body($k, true, $j, sn)
+                } else {
+                    $body($k, false, $j, sn)
+                }
+            } else if $j <= 2 {
+                if sn {
+                    $body($k, dn, $j, true)
+                } else {
+                    $body($k, dn, $j, false)
+                }
+            } else {
+                $body($k, dn, $j, sn)
             }
             cover();
         }
@@ -251,7 +321,7 @@ fn vk_int_repr_from_word() {
     m.w[0] = w;
     let r = Repr::from_word(w);
     assert!(r.len() == m.len && r.sign() == Sign::Positive && r.is_zero() == (w == 0) && r.is_one() == (w == 1));
-    finish(r, &m);
+    finish_k(r, &m, INLINE);
     cover();
 }
 
@@ -273,7 +343,7 @@ fn vk_int_repr_from_dword() {
     };
     let r = Repr::from_dword((lo as DoubleWord) | ((hi as DoubleWord) << 64));
     assert!(r.len() == m.len && r.sign() == Sign::Positive);
-    finish(r, &m);
+    finish_k(r, &m, INLINE);
     cover();
 }
 
@@ -282,12 +352,12 @@ fn vk_int_repr_from_dword() {
 #[cfg_attr(not(kani), test)]
 fn vk_int_repr_consts() {
     let mut m = Model { neg: false, w: [0; MAXW], len: 0 };
-    finish(Repr::zero(), &m);
+    finish_k(Repr::zero(), &m, INLINE);
     m.w[0] = 1;
     m.len = 1;
-    finish(Repr::one(), &m);
+    finish_k(Repr::one(), &m, INLINE);
     m.neg = true;
-    finish(Repr::neg_one(), &m);
+    finish_k(Repr::neg_one(), &m, INLINE);
     cover();
 }
 
@@ -315,8 +385,6 @@ fn body_from_buffer(cap: usize) {
         k += 1;
     }
     let r = Repr::from_buffer(b);
-    // inline iff at most two words
-    assert!((r.capacity() <= 2) == (n <= 2));
     finish(r, &Model { neg: false, w, len: n });
 }
 per_n!(body_from_buffer; vk_int_repr_from_buffer_c1 = 1, vk_int_repr_from_buffer_c2 = 2,
@@ -331,8 +399,8 @@ fn body_from_ref(kind: usize, neg: bool) {
     let r = Repr::from_ref(t);
     let mut want = m;
     want.neg = false;
-    finish(r, &want);
-    finish(src, &m);
+    finish_k(r, &want, class_of(kind));
+    finish_k(src, &m, class_of(kind));
 }
 per_kind!(body_from_ref; vk_int_repr_from_ref_i1 = 1, vk_int_repr_from_ref_i2 = 2, vk_int_repr_from_ref_h3 = 3,
     vk_int_repr_from_ref_h6 = 6);
@@ -380,7 +448,7 @@ fn body_views(kind: usize, neg: bool) {
             TypedReprRef::RefLarge(words) => assert!(m.len >= 3 && words_match(words, &m)),
         }
     }
-    finish(r, &m);
+    finish_k(r, &m, class_of(kind));
 }
 per_kind!(body_views; vk_int_repr_views_i1 = 1, vk_int_repr_views_i2 = 2, vk_int_repr_views_h3 = 3, vk_int_repr_views_h6 = 6);
 
@@ -418,7 +486,7 @@ fn body_with_sign(kind: usize, neg: bool) {
     let r2 = r.with_sign(sign_of(to_neg));
     let mut want = m;
     want.neg = to_neg && m.len != 0; // zero is never negative
-    finish(r2, &want);
+    finish_k(r2, &want, class_of(kind));
 }
 per_kind!(body_with_sign; vk_int_repr_with_sign_i1 = 1, vk_int_repr_with_sign_i2 = 2, vk_int_repr_with_sign_h3 = 3,
     vk_int_repr_with_sign_h6 = 6);
@@ -428,7 +496,7 @@ fn body_neg(kind: usize, neg: bool) {
     let r2 = r.neg();
     let mut want = m;
     want.neg = !m.neg && m.len != 0;
-    finish(r2, &want);
+    finish_k(r2, &want, class_of(kind));
 }
 per_kind!(body_neg; vk_int_repr_neg_i1 = 1, vk_int_repr_neg_i2 = 2, vk_int_repr_neg_h3 = 3, vk_int_repr_neg_h6 = 6);
 
@@ -440,16 +508,16 @@ fn body_signum(kind: usize, neg: bool) {
         want.w[0] = 1;
         want.len = 1;
     }
-    finish(s, &want);
-    finish(r, &m);
+    finish_k(s, &want, INLINE);
+    finish_k(r, &m, class_of(kind));
 }
 per_kind!(body_signum; vk_int_repr_signum_i1 = 1, vk_int_repr_signum_i2 = 2, vk_int_repr_signum_h4 = 4);
 
 // ---------------------------------------------------------------- clone
-fn scribble(r: &mut Repr) {
-    // overwrite the words of a (heap) repr in place, keeping it well-formed: flips all low words
+/// Overwrite the words of a repr in place, keeping it well-formed (all words below the top are flipped).
+fn scribble(r: &mut Repr, class: usize) {
     unsafe {
-        if r.capacity.get().unsigned_abs() > 2 {
+        if class == HEAP {
             let (p, len) = r.data.heap;
             let mut i = 0;
             while i < MAXW {
@@ -469,14 +537,13 @@ fn scribble(r: &mut Repr) {
 
 fn body_clone(kind: usize, neg: bool) {
     let (r, m) = mk(kind, neg);
+    let k = class_of(kind);
     let mut c = r.clone();
-    assert!(wf_repr(&c));
-    assert!(model_eq(&model_of(&c), &m));
+    check(&c, &m, k);
     // independent: changing the clone leaves the original alone; both are freed (no double free)
-    scribble(&mut c);
-    assert!(wf_repr(&c));
+    scribble(&mut c, k);
     drop(c);
-    finish(r, &m);
+    finish_k(r, &m, k);
 }
 per_kind!(body_clone; vk_int_repr_clone_i1 = 1, vk_int_repr_clone_i2 = 2, vk_int_repr_clone_h3 = 3, vk_int_repr_clone_h4 = 4,
     vk_int_repr_clone_h5 = 5, vk_int_repr_clone_h6 = 6, vk_int_repr_clone_h7 = 7);
@@ -486,16 +553,15 @@ fn body_clone_from(dk: usize, dneg: bool, sk: usize, sneg: bool) {
     let (mut d, _dm) = mk(dk, dneg);
     let (s, sm) = mk(sk, sneg);
     d.clone_from(&s);
-    assert!(wf_repr(&d));
-    assert!(model_eq(&model_of(&d), &sm));
+    let k = class_of(sk);
+    check(&d, &sm, k);
     // capacity is kept when it is large enough and compact for the new value
     if dk >= 3 && sm.len >= 3 && dk >= sm.len && dk <= spec_max_compact(sm.len) {
         assert!(d.capacity() == dk);
     }
-    scribble(&mut d);
-    assert!(wf_repr(&d));
+    scribble(&mut d, k);
     drop(d);
-    finish(s, &sm);
+    finish_k(s, &sm, k);
 }
 per_kind2!(body_clone_from;
     vk_int_repr_clone_from_i1_i1 = (1, 1), vk_int_repr_clone_from_i1_i2 = (1, 2), vk_int_repr_clone_from_i2_i1 = (2, 1),
@@ -509,8 +575,8 @@ per_kind2!(body_clone_from;
 
 // ---------------------------------------------------------------- drop
 fn body_drop(kind: usize, neg: bool) {
-    let (r, _m) = mk(kind, neg);
-    assert!(wf_repr(&r));
+    let (r, m) = mk(kind, neg);
+    check(&r, &m, class_of(kind));
     drop(r);
 }
 per_kind!(body_drop; vk_int_repr_drop_i1 = 1, vk_int_repr_drop_i2 = 2, vk_int_repr_drop_h3 = 3, vk_int_repr_drop_h6 = 6);
@@ -524,16 +590,16 @@ fn body_from_static_words(n: usize) {
     let raw: *mut [Word] = Box::into_raw(bx);
     let st: &'static [Word] = unsafe { &*raw };
     let r = unsafe { Repr::from_static_words(st) };
-    assert!(wf_repr(&r));
     let mut want_len = n;
     if n == 1 && w[0] == 0 {
         want_len = 0;
     }
-    assert!(model_eq(&model_of(&r), &Model { neg: false, w, len: want_len }));
-    assert!((r.capacity() <= 2) == (n <= 2));
+    let k = if n <= 2 { INLINE } else { HEAP };
+    let want = Model { neg: false, w, len: want_len };
+    check(&r, &want, k);
     // a clone is an ordinary owned value
     let c = r.clone();
-    finish(c, &Model { neg: false, w, len: want_len });
+    finish_k(c, &want, k);
     mem::forget(r);
     drop(unsafe { Box::from_raw(raw) });
 }
@@ -559,7 +625,7 @@ fn body_ones(lo: usize, hi: usize) {
             }
             i += 1;
         }
-        finish(r, &m);
+        finish_k(r, &m, if n <= 128 { INLINE } else { HEAP });
         n += 1;
     }
 }
